@@ -65,7 +65,10 @@ class PrecomputationABCRunner(argschema.ArgSchemaParser):
                             cell_metadata.dataset_label.values):
                 if dataset_label not in dataset_to_cell_set:
                     dataset_to_cell_set[dataset_label] = set()
-                dataset_to_cell_set[dataset_label].add(cell_id)
+                # (pandas reads all-digit labels as integers; cells are
+                # looked up by the string form the taxonomy and the
+                # h5ad files use)
+                dataset_to_cell_set[dataset_label].add(str(cell_id))
 
         files_to_merge = []
         for dataset in dataset_to_output.keys():
